@@ -188,3 +188,44 @@ Definition chk_c02 (e : entry) (files : list ast) (impl impl_plans : sx)
        count_eq 0 cls; count_eq 1 cls; count_eq 2 cls; count_eq 3 cls; count_eq 4 cls]
   | _ => [b2n (outcome_agree m impl); b2n (class_agree m impl); 1; 0; 0; 0; 0; 0; 0]
   end.
+
+(* ---- C15: revision pairs ---- *)
+(* rows of (interface, method) that must be stable; compares op-codes, error values and the
+   per-method plan observation of the implementation between the two revisions.
+   [model agrees A; model agrees B; plans agree A; plans agree B; #stable rows that changed] *)
+Definition plan_of (plans : sx) (i m : string) : option sx :=
+  match find (fun p => String.eqb (sx_str (sx_nth p 0)) i && String.eqb (sx_str (sx_nth (sx_nth p 2) 0)) m)
+             (sx_list plans) with
+  | Some p => Some (sx_nth p 2)
+  | None => None
+  end.
+Definition lookup2 {V} (t : list (string * list (string * V))) (i m : string) : option V :=
+  match alookup i t with Some row => alookup m row | None => None end.
+Definition opt_eqb {V} (eqb : V -> V -> bool) (a b : option V) : bool :=
+  match a, b with Some x, Some y => eqb x y | _, _ => false end.
+
+Definition chk_c15 (filesA filesB : list ast) (implA implB plansA plansB : sx)
+           (stable_methods stable_errors new_methods : list (string * string)) : list N :=
+  let oa := front Cli Debug filesA in
+  let ob := front Cli Debug filesB in
+  let ta := obs_optable (impl_payload implA) in
+  let tb := obs_optable (impl_payload implB) in
+  let ea := obs_errtable (impl_payload implA) in
+  let eb := obs_errtable (impl_payload implB) in
+  [b2n (outcome_agree (sx_outcome sx_mir oa) implA); b2n (outcome_agree (sx_outcome sx_mir ob) implB);
+   b2n (match oa with Ok mir => sx_eqb (sx_plans mir) plansA | _ => true end);
+   b2n (match ob with Ok mir => sx_eqb (sx_plans mir) plansB | _ => true end);
+   N.of_nat (List.length (filter (fun im =>
+     negb (opt_eqb N.eqb (lookup2 ta (fst im) (snd im)) (lookup2 tb (fst im) (snd im)) &&
+           opt_eqb sx_eqb (plan_of plansA (fst im) (snd im)) (plan_of plansB (fst im) (snd im))))
+     stable_methods));
+   N.of_nat (List.length (filter (fun ie =>
+     negb (opt_eqb Z.eqb (lookup2 ea (fst ie) (snd ie)) (lookup2 eb (fst ie) (snd ie))))
+     stable_errors));
+   (* an appended method must not reuse an op-code the old revision dispatches *)
+   N.of_nat (List.length (filter (fun im =>
+     match lookup2 tb (fst im) (snd im), alookup (fst im) ta with
+     | Some v, Some row => existsb (N.eqb v) (map snd row)
+     | None, _ => true
+     | _, None => false
+     end) new_methods))].
